@@ -116,6 +116,46 @@ def ctx_priority_family(rng, name):
     return Def(name, [('Init', rules)], tags=['ctxprio'])
 
 
+def local_let_family(rng):
+    """the same variable name bound to different regexes in sibling rule sets (and at the top level), used in rules and
+    in right contexts: a binding is visible in its own rule set only"""
+    out = []
+    binds = [(cs(('a', 'c')), cs(('x', 'z'))), (ch('x'), ch('y')), (plus(ch('a')), st('ab')), (cs('a', 'x'), diff(ANY, cs('a', 'x')))]
+    for j, (ra, rb) in enumerate(binds):
+        va = ('var', 'v', ra)
+        vb = ('var', 'v', rb)
+        # as right contexts
+        d1 = Def('ll%dc' % j, [('Init', [Rule(ch('!'), 'sw', target='A'), Rule(ch('?'), 'sw', target='B'), Rule(ANY, 'tok')]),
+                                ('A', [Rule(ch('a'), 'swret', target='Init', ctx=va), Rule(ANY, 'swret', target='Init')]),
+                                ('B', [Rule(ch('a'), 'swret', target='Init', ctx=vb), Rule(ANY, 'swret', target='Init')])],
+                 local_lets={'A': [('v', ra)], 'B': [('v', rb)]}, tags=['locallet'])
+        # as rule regexes
+        d2 = Def('ll%dr' % j, [('Init', [Rule(ch('!'), 'sw', target='A'), Rule(ch('?'), 'sw', target='B'), Rule(ANY, 'tok')]),
+                                ('A', [Rule(cat(va, ch('.')), 'swret', target='Init'), Rule(ANY, 'swret', target='Init')]),
+                                ('B', [Rule(cat(vb, ch('.')), 'swret', target='Init'), Rule(ANY, 'swret', target='Init')])],
+                 local_lets={'A': [('v', ra)], 'B': [('v', rb)]}, tags=['locallet'])
+        out += [d1, d2]
+    return out
+
+
+def nested_repetition_family():
+    """nested `*` / `+` / `?` (the body of a repetition starts or ends with another repetition)"""
+    ops = {'star': star, 'plus': plus, 'opt': opt}
+    out = []
+    j = 0
+    for on, outer in ops.items():
+        for inn, inner in ops.items():
+            forms = [cat(ch('c'), outer(cat(inner(ch('a')), ch('b')))), cat(outer(cat(ch('b'), inner(ch('a')))), ch('c')),
+                     cat(outer(alt(inner(ch('a')), ch('b'))), ch('c')), cat(ch('c'), outer(inner(ch('a'))), ch('b')),
+                     cat(cs(('0', '9')), outer(cat(inner(ch('_')), cs(('0', '9')))))]
+            for f in forms:
+                if R.matches_empty(f):
+                    continue
+                out.append(Def('nr%d' % j, [('Init', [Rule(f, 'tok'), Rule(ANY, 'tok')])], tags=['C02', 'nested']))
+                j += 1
+    return out
+
+
 def small_trees():
     """bounded-exhaustive regex trees over atoms a, b, [a-b], _ (<= 2 operators), as single-rule lexers"""
     atoms = [ch('a'), ch('b'), cs(('a', 'b')), ANY, st('ab')]
@@ -246,8 +286,12 @@ def c02_defs(rng, thorough):
         defs.append(Def('law%d' % j, [('Init', [Rule(r, 'tok')])], lets=lets, tags=['C02']))
     ov = [d for d in overlap_family() if 'C02' in d.tags]
     defs += ov if thorough else ov[::2]
+    nr = nested_repetition_family()
+    defs += nr if thorough else nr[::2]
     for j in range(30 if thorough else 8):
         defs.append(Def('rtree%d' % j, [('Init', [Rule(F.rand_rule_regex(rng, 3), 'tok')])], tags=['C02']))
+    for d in defs:
+        d.tags.add('C02')
     return defs
 
 
@@ -281,11 +325,15 @@ def select(prop, thorough, rng):
         defs += [dyn_def(rng, 'dy%d' % j) for j in range(nrand // 3)]
         es = empty_set_family(rng)
         defs += es if thorough else es[:4]
+        ll = local_let_family(rng)
+        defs += ll if thorough else ll[4:8]
         defs += [stale_family(rng, 'st%d' % j) for j in range(nrand // 3)]
     elif prop == 'C04':
         defs = pick('C04')
         defs += [F.rand_def(rng, 'cx%d' % j, nsets=rng.choice([1, 1, 2]), ctx_p=0.6, eof_p=0.05, kinds=['tok', 'tok', 'ret', 'skip', 'cont'], maxrules=4, depth=1, tags=['C04']) for j in range(nrand + nrand // 2)]
         defs += [ctx_priority_family(rng, 'cp%d' % j) for j in range(nrand // 2)]
+        ll = local_let_family(rng)
+        defs += ll if thorough else ll[:4]
     elif prop == 'C05':
         defs = pick('C05')
         defs += [F.rand_def(rng, 'eo%d' % j, nsets=rng.choice([1, 2, 2]), eof_p=0.45, kinds=['tok', 'ret', 'skip', 'cont', 'sw', 'swret'], maxrules=4, depth=1, tags=['C05']) for j in range(nrand + nrand // 2)]
@@ -326,13 +374,19 @@ def select(prop, thorough, rng):
     elif prop == 'C13':
         defs = builtin_defs(thorough)
         variants = ((False, False),)
-        N = 1
+        N = 2       # capped per definition by Def.nmax (1 for the big tables in a loop)
     elif prop in ('C14', 'C15'):
         defs = pick('C03', 'C05', 'C07', 'C10', 'rewind')
         defs += [F.rand_def(rng, 'cc%d' % j, ctx_p=0.1, eof_p=0.1, tags=[prop]) for j in range(nrand // 2)]
         defs += [dyn_def(rng, 'cd%d' % j) for j in range(nrand // 4)]
         if prop == 'C14':
             variants = ((False, False),)
+        else:
+            # two binary-search tables in one lexer: state hidden outside the lexer value would be shared by clones
+            t1 = cs(('a', 'b'), ('d', 'e'), ('g', 'h'), ('j', 'k'), ('m', 'n'), ('p', 'q'), ('s', 't'), ('v', 'w'), ('y', 'z'), ('0', '1'), ('3', '4'))
+            t2 = cs(('A', 'B'), ('D', 'E'), ('G', 'H'), ('J', 'K'), ('M', 'N'), ('P', 'Q'), ('S', 'T'), ('V', 'W'), ('Y', 'Z'), ('5', '6'), ('8', '9'), 'c')
+            defs.append(Def('cl_tables', [('Init', [Rule(plus(t1), 'tok'), Rule(plus(t2), 'tok'), Rule(ANY, 'tok')])], tags=[prop], nmax=2))
+            defs.append(Def('cl_tables2', [('Init', [Rule(cat(t2, star(t1)), 'ret'), Rule(plus(t1), 'tok'), Rule(ch(' '), 'skip')])], tags=[prop], nmax=2))
     else:
         raise ValueError(prop)
     defs = [d for d in uniq(defs) if d.wellformed()]
@@ -362,6 +416,22 @@ def builtin_defs(thorough):
         out.append(Def('bi_' + n, [('Init', [Rule(plus(bi(n)), 'tok'), Rule(ANY, 'tok')])], tags=['builtin', 'C13'], nmax=1))
         if n not in BIG_BUILTINS or thorough:
             out.append(Def('bj_' + n, [('Init', [Rule(bi(n), 'tok'), Rule(cat(bi(n), ch('!')), 'tok'), Rule(ANY, 'tok')])], tags=['builtin', 'C13'], nmax=2 if n not in BIG_BUILTINS else 1))
+    # two different binary-search tables in one lexer (a big class trimmed by another rule + the full class in a loop)
+    out.append(Def('bi_two_tables', [('Init', [Rule(plus(cs(('a', 'f'))), 'tok'), Rule(plus(bi('lowercase')), 'tok'), Rule(ANY, 'tok')])], tags=['builtin', 'C13'], nmax=2))
+    out.append(Def('bi_two_tables2', [('Init', [Rule(plus(bi('numeric')), 'tok'), Rule(cat(cs(('0', '4')), plus(bi('numeric'))), 'tok'), Rule(plus(bi('whitespace')), 'skip'), Rule(ANY, 'tok')])], tags=['builtin', 'C13'], nmax=2))
+    # two DIFFERENT tables with the same number of ranges and the same first and last range: a range rule trims an inner
+    # range of the class in the initial state, the loop state uses the whole class
+    tt = cs(('a', 'b'), ('d', 'e'), ('g', 'h'), ('j', 'l'), ('n', 'o'), ('q', 'r'), ('t', 'u'), ('w', 'x'), ('z', 'z'), ('0', '1'), ('3', '4'))
+    tt2 = cs(('a', 'b'), ('d', 'e'), ('g', 'h'), ('j', 'm'), ('o', 'p'), ('r', 's'), ('u', 'v'), ('x', 'y'), ('0', '1'), ('3', '4'), ('6', '7'))
+    k = 0
+    for trim in (cs(('j', 'k')), cs(('l', 'm')), cs(('j', 'j')) if False else cs(('j', 'l'))):
+        for order in (0, 1):
+            for tail in (None, ch('!')):
+                r_trim = Rule(plus(trim) if tail is None else cat(trim, tail), 'tok')
+                r_full = Rule(plus(tt2), 'tok')
+                rules = [r_trim, r_full] if order == 0 else [r_full, r_trim]
+                out.append(Def('bi_tt%d' % k, [('Init', rules + [Rule(ANY, 'tok')])], tags=['builtin', 'C13'], nmax=2))
+                k += 1
     out.append(Def('bi_combo1', [('Init', [Rule(diff(bi('ascii_alphanumeric'), cs(('a', 'f'), '0')), 'tok'), Rule(alt(bi('ascii_digit'), bi('ascii_punctuation')), 'tok'), Rule(ANY, 'tok')])], tags=['builtin', 'C13'], nmax=1))
     out.append(Def('bi_combo2', [('Init', [Rule(diff(bi('numeric'), bi('ascii_digit')), 'tok'), Rule(cat(bi('ascii_uppercase'), bi('ascii_lowercase')), 'tok'), Rule(ANY, 'tok')])], tags=['builtin', 'C13'], nmax=2))
     out.append(Def('bi_ws_ctx', [('Init', [Rule(ch('a'), 'tok', ctx=bi('whitespace')), Rule(ch('a'), 'tok', ctx=bi('numeric')), Rule(ANY, 'tok')])], tags=['builtin', 'C13'], nmax=2))
